@@ -158,6 +158,29 @@ class Prop(SeqProp):
                     return f"op {i}: iteration {line!r}, expected ascending {exp!r}"
         return None
 
+    # lookups in one (immutable) map from several threads at once, keys whose comparisons run Python code (harness/threads.py)
+    def extra_scenarios(self, rng, tier):
+        out = []
+        for _ in range(6 if tier == "quick" else 40):
+            cuts = sorted(rng.sample(range(-40, 60), 12))
+            out.append({"kind": "threads", "intervals": [(cuts[j], cuts[j + 1] - (1 if rng.random() < 0.5 else 0)) for j in range(0, 12, 2)]})
+        return out
+
+    def run_extra(self, desc):
+        from fractions import Fraction
+        from windpyutils.structures.maps import ImmutIntervalMap
+        from .. import threads
+        ivs = [tuple(iv) for iv in desc["intervals"] if iv[0] <= iv[1]]
+        m = ImmutIntervalMap({iv: f"v{j}" for j, iv in enumerate(ivs)})
+        jobs = []
+        pts = sorted({p for s, e in ivs for p in (s, e, s - 1, e + 1)} | {Fraction(s + e, 2) for s, e in ivs})
+        for p in pts:
+            hit = [f"v{j}" for j, (s, e) in enumerate(ivs) if s <= p <= e]
+            k = Fraction(p)
+            jobs.append((f"m[{p}]", lambda k=k: m[k], ("ret", hit[0]) if hit else ("err", "KeyError")))
+            jobs.append((f"{p} in m", lambda k=k: k in m, ("ret", bool(hit))))
+        return threads.hammer(jobs, 4, 2)
+
     def key(self, case, impl_out):
         return hash(tuple(case.ops)) if len(case.meta["impl"][0][1]) >= 2 else None
 
